@@ -256,6 +256,29 @@ theorem writeSlotsKeep_gs : ∀ slots st, DirOK fs0 st →
       · exact ih _ (hr _ rfl)
       · exact GS.pure hst
 
+theorem freeWrittenLoop_gs : ∀ k st pos endPos, DirOK fs0 st →
+    GS fs0 sz (WClass fs0) (freeWrittenLoop k st pos endPos) (DirOK fs0) := by
+  intro k
+  induction k with
+  | zero => intro st pos endPos hst; unfold freeWrittenLoop; exact GS.pure hst
+  | succ k ih =>
+    intro st pos endPos hst
+    unfold freeWrittenLoop
+    split
+    · refine GS.bind (DirStream.seek_gs hfit hst _) ?_
+      rintro ⟨_, st1⟩ hst1
+      dsimp only
+      exact GS.bind (writeAll_gs (DirStream.strm_gs hfit) _ _ hst1) (fun st2 hst2 => ih _ _ _ hst2)
+    · exact GS.pure hst
+
+theorem freeWrittenEntries_gs {st : DirStream} (hst : DirOK fs0 st) (startPos : Nat) :
+    GS fs0 sz (WClass fs0) (freeWrittenEntries st startPos) (fun _ => True) := by
+  unfold freeWrittenEntries
+  refine GS.bind (DirStream.seek_gs hfit hst _) ?_
+  rintro ⟨endPos, st1⟩ hst1
+  dsimp only
+  exact GS.bind (freeWrittenLoop_gs hfit _ _ _ _ hst1) (fun _ _ => GS.pure trivial)
+
 theorem writeEntry_gs {d : DirStream} (hd : DirOK fs0 d) (name : String) (raw : DirFileEntryData) :
     GS fs0 sz (WClass fs0) (writeEntry d name raw) (fun _ => True) := by
   unfold writeEntry
@@ -272,7 +295,7 @@ theorem writeEntry_gs {d : DirStream} (hd : DirOK fs0 d) (name : String) (raw : 
       rintro ⟨err, st'⟩ hst'
       dsimp only
       split
-      · exact thenDrop_gs _ (GS.fail _)
+      · exact thenDrop_gs _ (GS.bind (freeWrittenEntries_gs hfit hst' _) (fun _ _ => GS.fail _))
       · refine thenDrop_gs _ ?_
         refine GS.bind (DirStream.seek_gs hfit hst' _) ?_
         rintro ⟨endPos, st2⟩ _
@@ -445,22 +468,58 @@ theorem remove_gs (env) : ∀ fuel d path, DirOK fs0 d →
         · exact GS.bind (freeClusterChain_gs hfit _) (fun _ _ => deleteEntry_gs hfit hd e)
         · exact deleteEntry_gs hfit hd e
 
+theorem ancestorWalk_gs (env target) : ∀ fuel anc depth, DirOK fs0 anc →
+    GS fs0 sz (WClass fs0) (ancestorWalk env target fuel anc depth) (fun _ => True) := by
+  intro fuel
+  induction fuel with
+  | zero => intro anc depth _; unfold ancestorWalk; exact thenDrop_gs _ (GS.fail _)
+  | succ k ih =>
+    intro anc depth hanc
+    unfold ancestorWalk
+    refine GS.bind GS.getFs (fun fs hfs => ?_)
+    split
+    · exact thenDrop_gs _ (GS.fail _)
+    · split
+      · exact DirStream.drop_gs _
+      · split
+        · exact thenDrop_gs _ (GS.fail _)
+        · refine GS.bind (Q := DirOK fs0) ?_ (fun up hup => ?_)
+          · exact GS.finallyDrop (openDir_gs hfit env _ _ _ hanc) (fun _ _ => GS.pure trivial) (DirStream.dropBody_gs _)
+          · exact GS.bind (DirStream.drop_gs _) (fun _ _ => ih _ _ hup)
+
+theorem ancestorWalkTop_gs (env target) {dst : DirStream} (hdst : DirOK fs0 dst) :
+    GS fs0 sz (WClass fs0) (ancestorWalkTop env target dst) (fun _ => True) := by
+  unfold ancestorWalkTop
+  exact GS.bind GS.getFs (fun fs _ => ancestorWalk_gs hfit env target _ _ _ hdst)
+
 theorem renameInternal_gs (env) {d dst : DirStream} (hd : DirOK fs0 d) (hdst : DirOK fs0 dst) (srcName dstName) :
     GS fs0 sz (WClass fs0) (renameInternal env d srcName dst dstName) (fun _ => True) := by
   unfold renameInternal
+  refine GS.bind GS.getFs (fun fs hfs => ?_)
   refine GS.bind (findEntry_gs hfit env hd _ _) (fun e _ => ?_)
   refine GS.bind (liftE_gs _) (fun _ _ => ?_)
-  refine GS.bind (checkForExistence_gs hfit env hdst _ _) (fun r _ => ?_)
+  dsimp only
   split
-  · split
-    · exact GS.pure trivial
-    · exact GS.fail _
-  · refine GS.bind (Q := DirOK fs0) ?_ (fun st _ => ?_)
-    · refine GS.finallyDrop ?_ (fun _ _ => GS.pure trivial) (DirStream.dropBody_gs _)
-      refine GS.bind (DirStream.seek_gs hfit hd _) ?_
-      rintro ⟨_, st⟩ hst
-      exact deleteSlots_gs hfit _ _ hst
-    · exact GS.bind (thenDrop_gs _ (writeEntry_gs hfit hdst _ _)) (fun _ _ => GS.pure trivial)
+  refine GS.bind (ancestorWalkTop_gs hfit env _ hdst) (fun _ _ => ?_)
+  all_goals
+    refine GS.bind (checkForExistence_gs hfit env hdst _ _) (fun r _ => ?_)
+    split
+    · split
+      · exact GS.pure trivial
+      · exact GS.fail _
+    · refine GS.bind (deleteEntry_gs hfit hd e) (fun _ _ => ?_)
+      refine GS.bind (writeEntry_gs hfit hdst _ _) (fun newEntry _ => ?_)
+      split
+      · try dsimp only
+        refine GS.bind (DirEntry.toDir_gs hfs newEntry) (fun moved hmoved => ?_)
+        refine GS.bind (thenDrop_gs _ (findEntry_gs hfit env hmoved _ _)) (fun dotdot _ => ?_)
+        have h32 : FileH.entryChunkSizes.sum = 32 := by decide
+        split <;> split <;> first
+          | exact GS.pure (Post := fun _ => True) trivial
+          | (refine GS.seek_unit (len := 32) ((PU.writeChunks _ _).mono ?_) (fun o b h1 h2 => .slot _ ⟨h1, h2⟩)
+              (fun _ => GS.pure (Post := fun _ => True) trivial)
+             exact Nat.le_trans (totalLen_chunksOf_le FileH.entryChunkSizes _) (Nat.le_of_eq h32))
+      · exact GS.pure (Post := fun _ => True) trivial
 
 theorem rename_gs (env) : ∀ fuel d srcPath dst dstPath, DirOK fs0 d → DirOK fs0 dst →
     GS fs0 sz (WClass fs0) (rename env fuel d srcPath dst dstPath) (fun _ => True) := by
